@@ -880,8 +880,8 @@ def worker(job):
         if job[0] == "cov":
             # four small shards in this process under coverage.py
             tier = job[3]
-            cov_jobs = [("sets", "cov", 60, tier), ("hist", "cov", 120, tier), ("stale", "cov", 60, tier),
-                        ("tagged", "cov", 60, tier)]
+            cov_jobs = [("corpus", "cov", 0, tier), ("sets", "cov", 60, tier), ("hist", "cov", 120, tier),
+                        ("stale", "cov", 60, tier), ("tagged", "cov", 60, tier)]
             parts, summary = measure_anchor_coverage(lambda: [worker_(j) for j in cov_jobs])
             return {"cov_parts": list(zip(cov_jobs, parts)), "cov_summary": summary}
         return worker_(job)
@@ -906,7 +906,11 @@ def worker_(job):
     def bump(key, k=1):
         st["hist"][key] = st["hist"].get(key, 0) + k
 
-    if kind in ("sets", "small", "c01sets"):
+    if kind == "corpus":
+        # the regression corpus once more inside the coverage shard: its deterministic histories reach the
+        # rarely taken lines of _iter_cached whatever the seed
+        run_corpus(o, st, viol, samples)
+    elif kind in ("sets", "small", "c01sets"):
         it = (small_scope_sets(tier) if kind == "small" else
               (gen_set(r) for _ in range(n)) if kind == "sets" else (gen_c01_set(r) for _ in range(n)))
         for s in it:
@@ -1267,7 +1271,7 @@ def main():
             jobs += [(kind, str(i), n, tier) for i in range(shards)]
         # every shard runs in a pool worker under a wall-clock budget: a shard that does not come back
         # (a stall in the implementation or in the check) is reported, the check itself never hangs
-        budget = 420 if tier == "quick" else 2400
+        budget = 900 if tier == "quick" else 2400
         cov_summary = {"available": False}
         pool = multiprocessing.Pool(procs)
         t_pool = time.time()
